@@ -177,6 +177,11 @@ def run(ctx):
         crosscheck(ctx, "C07.R9", BM + "." + live, "ref_matcher.py", ref, BM,
                    "per-child slot handling of " + live, outcome_norm=family)
 
+    crosscheck(ctx, "C07.R1", "ZConfig.loader.BaseLoader._raise_open_error",
+               "ref_misc.py", "raise_open_error",
+               "ZConfig.loader.BaseLoader",
+               "open failures always become a ConfigurationError")
+
     _r2_positions(ctx)
     _r3_cycles(ctx)
     _r4_subscripts(ctx)
